@@ -6,7 +6,10 @@ LEVEL_TEXT = ("Coq theorems over the disk-level model of the file store. THE dur
               "and killed operations, i.e. after any number of stops and starts, which touch nothing but memory — every operation runs without a "
               "failing step, leaves such a disk again, and acts exactly as the ordered-map operation on the OLD listing (same order, ids, "
               "metadata, seen flags, sizes, content; ops_refine_ordered_map), deliveries keep the cap, the visit walk lists every non-empty "
-              "mailbox (visit_complete); filedisk_refines_storespec identifies that ordered map with StoreSpec. The property's clause 'after a "
+              "mailbox (visit_complete); filedisk_refines_storespec identifies that ordered map with StoreSpec; composed with C01's delivery_exact: mail acknowledged with 250 "
+              "survives a restart (acknowledged_mail_survives_restart: after the dialogue's deliveries and any stops / starts / walks every mailbox "
+              "lists exactly the cap most recent of the messages the dialogue entitles it to; killed_delivery_keeps_acknowledged_mail for a process "
+              "killed during a further delivery). The property's clause 'after a "
               "restart every mailbox lists the same messages in the same order with the same ids, metadata, flags, sizes and content' is "
               "covered by ops_continue + the correspondence run: the model's state IS the disk, so in the model a reopen is the identity "
               "(reopen_transparent holds by construction — it documents, it does not carry weight); that the REAL store object keeps nothing "
